@@ -153,6 +153,8 @@ def gen_case(ctx, fmt=None):
         sel['pick'] = rng.getrandbits(16)
     if fmt == 'ms5_xsf' and rng.random() < 0.4:
         sel['idl'] = rng.getrandbits(16)
+    if fmt in ('qtop_openqcd', 'qtop_sfqcd'):
+        case['integer_charge'] = sel.get('pick', 0) % 3 == 0
     if rng.random() < 0.25:
         sel['names'] = True
     if fmt in ('sfcf_c', 'sfcf_o') and rng.random() < 0.5:
@@ -265,12 +267,15 @@ def read_and_expect(ctx, case, root, info):
             # c chosen so that (c L)^2 / 8 / eps / dn is the requested index
             # request a smearing radius whose flow time is nearest to the stored index `idx` (on or off the grid)
             cc = math.sqrt(8 * (case['idx'] + case.get('off', 0.0)) * case['eps'] * case['dn']) / case['L']
+            ic = bool(case.get('integer_charge'))
+            if ic:
+                k2['integer_charge'] = True      # documented: the charge of each configuration rounded to the nearest integer
             res = oq.read_qtop(root, 'ensA', cc, version='openQCD', L=case['L'], **k2)
             exp = {}
             tm, nn = case['tmax'], case['nn']
             for r, s0, s1 in zip(rs, rstart, rstop):
                 idx = select(cls[r], s0, s1, 1)
-                exp[names[r]] = {cls[r][i]: float(sum(info['stored'][r][reps[r][i]][2][case['idx'] * tm:(case['idx'] + 1) * tm])) for i in idx}
+                exp[names[r]] = {cls[r][i]: (lambda q: float(round(q)) if ic else q)(float(sum(info['stored'][r][reps[r][i]][2][case['idx'] * tm:(case['idx'] + 1) * tm]))) for i in idx}
             out.append(('read_qtop openQCD flow index %d' % case['idx'], tab(res), exp))
         elif fmt == 'energy':
             cls = {r: renumbered(reps[r]) for r in rs}
@@ -302,11 +307,14 @@ def read_and_expect(ctx, case, root, info):
                 k2['r_stop'] = rstop
             # a decimal literal such as 0.3 with cmax/ncs = 0.1 (quotient 2.9999999999999996) is a legitimate request
             cc = float(repr(round((case['idx'] + case.get('off', 0.0)) * case['cmax'] / case['ncs'], 6)))
+            ic = bool(case.get('integer_charge'))
+            if ic:
+                k2['integer_charge'] = True
             res = oq.read_qtop(root, 'ensA', cc, version='sfqcd', **k2)
             exp = {}
             for r, s0, s1 in zip(rs, rstart, rstop):
                 idx = select(cls[r], s0, s1, 1)
-                exp[names[r]] = {cls[r][i]: float(sum(info['stored'][r][reps[r][i]][case['idx']][8])) for i in idx}
+                exp[names[r]] = {cls[r][i]: (lambda q: float(round(q)) if ic else q)(float(sum(info['stored'][r][reps[r][i]][case['idx']][8]))) for i in idx}
             out.append(('read_qtop sfqcd c index %d' % case['idx'], tab(res), exp))
         elif fmt == 'ms5_xsf':
             k2 = dict(kw)
